@@ -76,11 +76,11 @@ Inductive case :=
 | CQueue (max0 : Z) (ops : list qop) (obs : list qobs)
 | CSem (size0 : Z) (ops : list sop) (obs : list sobs).
 
-(* dual model (finding F-C29): the implementation must agree, over the whole history, with the code as it
-   is or with the repaired variant *)
+(* F-C29a/b are fixed in the code (7e41ac88, 2748241c): only the repaired variant [fx = true] remains in
+   the correspondence; the pre-fix variant [fx = false] lives on in the [_refuted] theorems only *)
 Definition ok (c : case) : bool :=
   match c with
-  | CQueue m ops obs => qcheck false (qinit m) ops obs || qcheck true (qinit m) ops obs
+  | CQueue m ops obs => qcheck true (qinit m) ops obs
   | CSem n ops obs => scheck (sinit n) ops obs
   end.
 
